@@ -8,7 +8,7 @@ cp /repo/go.sum harness/go.sum.repo 2>/dev/null || true
 T=$(mktemp -d /tmp/verif-setup-XXXXXX)
 trap 'rm -rf "$T"' EXIT
 ( cd harness && go test -c -tags verif -vet=off -o "$T/checks.test" ./checks )
-if [ "${VERIF_SETUP_RACE:-1}" = 1 ] && [ -d harness/racechecks ]; then
-  ( cd harness && go test -c -race -tags verif -vet=off -o "$T/race.test" ./racechecks )
+if [ "${VERIF_SETUP_RACE:-1}" = 1 ]; then
+  ( cd harness && go test -c -race -tags verif -vet=off -o "$T/race.test" ./checks )
 fi
 echo setup-ok
